@@ -22,7 +22,10 @@ inline uint32_t PB(int n) { return 1u << n; }
 enum {
   P01 = 1u << 1, P02 = 1u << 2, P03 = 1u << 3, P04 = 1u << 4, P05 = 1u << 5, P06 = 1u << 6, P07 = 1u << 7,
   P08 = 1u << 8, P09 = 1u << 9, P10 = 1u << 10, P11 = 1u << 11, P12 = 1u << 12, P13 = 1u << 13, P14 = 1u << 14,
-  P15 = 1u << 15, P16 = 1u << 16, P17 = 1u << 17, P18 = 1u << 18, P19 = 1u << 19, P20 = 1u << 20
+  P15 = 1u << 15, P16 = 1u << 16, P17 = 1u << 17, P18 = 1u << 18, P19 = 1u << 19, P20 = 1u << 20,
+  // a violation that does not put the harness itself at risk: when it belongs to another property than the one being
+  // checked, the case goes on (its consequences may be a violation of the checked property)
+  PSOFT = 1u << 31
 };
 
 inline int parse_prop(const char *s) {  // "C07" -> 7
@@ -38,7 +41,8 @@ struct Ctx {
   uint32_t failed_props;    // bits of the first fatal violation
   char msg[768];            // message of the first fatal violation
   bool resource_skip;       // case exceeded a harness resource (not a violation)
-  uint64_t nonfatal;        // violations seen that belong to other properties only
+  uint64_t nonfatal;        // violations seen that belong to other properties only (and may have corrupted something)
+  uint64_t nonfatal_soft;   // same, but harmless for the rest of the case
   char nonfatal_msg[256];
   uint32_t extra_tag;       // bits OR-ed into every violation raised (set by the interpreter per op)
   bool verbose;             // replay mode: print every effective op
@@ -77,6 +81,8 @@ inline void violation(uint32_t props, const char *fmt, ...) {
       c.failed_props = props;
       snprintf(c.msg, sizeof c.msg, "%s", buf);
     }
+  } else if (props & PSOFT) {
+    ++c.nonfatal_soft;
   } else {
     if (c.nonfatal == 0) snprintf(c.nonfatal_msg, sizeof c.nonfatal_msg, "%s", buf);
     ++c.nonfatal;
@@ -130,6 +136,7 @@ inline void case_begin() {
   c.msg[0] = 0;
   c.resource_skip = false;
   c.nonfatal = 0;
+  c.nonfatal_soft = 0;
   c.nonfatal_msg[0] = 0;
   c.extra_tag = 0;
   c.trace_hash = 1469598103934665603ull;
@@ -150,7 +157,7 @@ inline void case_end(bool nontrivial) {
   if (c.resource_skip) ++c.skipped_cases;
   for (int i = 0; i < 64; ++i)
     if ((c.case_features >> i) & 1) ++c.feat_total[i];
-  if (nontrivial && !c.failed && !c.resource_skip && c.nonfatal == 0) {
+  if (nontrivial && !c.failed && !c.resource_skip && c.nonfatal == 0 && c.nonfatal_soft == 0) {
     ++c.nontrivial_cases;
     if (c.distinct->size() < 4000000) c.distinct->insert(c.trace_hash);
     if (c.keep_trace && !c.verbose && c.samples->size() < 6 && !c.cur_trace->empty()) c.samples->push_back(*c.cur_trace);
